@@ -75,7 +75,10 @@ int main(int argc, char **argv)
 		rng = strtoull(argv[2], NULL, 10) * 2862933555777941757ULL + 3037000493ULL;
 		for (i = 0; i < count; i++) {
 			int m = 24 + rnd() % 7;
-			uint32_t ip = (10u << 24) | ((rnd() & 0xFF) << 8) | 1;
+			/* the server anywhere in its subnet: below, inside and above the run of client addresses (the pool skips it) */
+			uint32_t size = 1u << (32 - m);
+			uint32_t host = (i % 3 == 0) ? 1 : (i % 3 == 1) ? 1 + rnd() % 18 : rnd() % size;
+			uint32_t ip = (10u << 24) | ((rnd() & 0xFF) << 8) | (host % size);
 			time_t now = time(NULL);
 			int n, ret, age[16];
 			uint32_t q;
@@ -88,7 +91,7 @@ int main(int argc, char **argv)
 				age[k] = ages[rnd() % 7];
 				users[k].last_pkt = now - age[k];
 			}
-			q = rnd() % 5 == 0 ? ip + 77 : ntohl(users[rnd() % n].tun_ip);
+			q = rnd() % 5 == 0 ? ip + 77 : rnd() % 9 == 0 ? ip : ntohl(users[rnd() % n].tun_ip);
 			ret = find_user_by_ip(htonl(q));
 			printf("{\"e\":\"Lookup\",\"slots\":[");
 			for (k = 0; k < n; k++) {
